@@ -562,3 +562,62 @@ for _pid in ("C08", "C09"):
     PLANS[_pid]["thorough"] = PLANS[_pid]["thorough"] + [_h, hist("hist-d3-prod", "prod", 3, weight=6, crash_props=["C17", _pid])]
     PLANS[_pid]["rule"] += "; family hist: every write_prob step inside a history (depth 2 over the full alphabet of 66 operations from 10 start problems) is read back and compared with the edited model"
     PLANS[_pid]["evidence"] = {"states": PLANS[_pid]["evidence"]["states"] + ["histories"], "transitions": PLANS[_pid]["evidence"]["transitions"] + ["api_transitions"], "nontrivial": PLANS[_pid]["evidence"]["nontrivial"] + ["roundtrips_in_histories"]}
+
+# ---------------------------------------------------------------- thorough tiers sized to their deadlines (16 cores; a run the deadline interrupts is reported as such)
+def _dl(pid, quick=None, thorough=None):
+    d = dict(PLANS[pid].get("deadline", {}))
+    if quick: d["quick"] = quick
+    if thorough: d["thorough"] = thorough
+    PLANS[pid]["deadline"] = d
+
+_H3R_SAN = hist("hist-d3r-san", "san", 3, reduced=1, weight=4)
+_H3_PROD = hist("hist-d3-prod", "prod", 3, weight=12)
+PLANS["C05"]["thorough"] = [hist("hist-d2-san", "san", 2), SW3, _H3R_SAN, _H3_PROD]
+PLANS["C05"]["bounds"] = dict(PLANS["C05"]["bounds"], thorough="depth 3 over the full alphabet (2.9M histories, -O2 build), depth 3 over the reduced alphabet on the sanitizer build")
+_dl("C05", thorough=2400)
+PLANS["C06"]["thorough"] = PLANS["C05"]["thorough"] + [fam("grow-san", "san", "grow", {}, weight=1, crash_props=["C17", "C06"], timeout=300), fam("grow-prod", "prod", "grow", {}, weight=1, crash_props=["C17", "C06"], timeout=300)]
+PLANS["C06"]["bounds"] = PLANS["C05"]["bounds"]
+_dl("C06", thorough=2400)
+_dl("C07", thorough=1800)
+for _pid in ("C08", "C09"):
+    PLANS[_pid]["thorough"] = [r for r in PLANS[_pid]["thorough"] if r["id"] != "hist-d3-prod"] + [hist("hist-d3r-prod", "prod", 3, reduced=1, weight=1, crash_props=["C17", _pid])]
+PLANS["C11"]["thorough"] = [r for r in PLANS["C11"]["thorough"] if r["id"] not in ("rdr-tok-lp-k4-prod", "rdr-mut2-lp")] + [r for r in PLANS["C11"]["thorough"] if r["id"] == "rdr-mut2-lp"]
+_dl("C11", thorough=2400)
+PLANS["C12"]["thorough"] = [hist("hist-d2-verd", "prod", 2, weight=1, crash_props=["C17", "C12"], opts={"depth": 2, "reduced": 0, "verd": 1}),
+                            hist("hist-sw3-verd", "prod", 3, weight=1, crash_props=["C17", "C12"], opts={"depth": 3, "reduced": 0, "sandwich": 1, "verd": 1}),
+                            hist("hist-d3r-verd", "prod", 3, weight=2, crash_props=["C17", "C12"], opts={"depth": 3, "reduced": 1, "verd": 1}),
+                            fam("basis-S0c", "prod", "basis", {"fam": "S0c", "files": 0}, weight=6, crash_props=["C17", "C12"]),
+                            fam("basis-Sbq", "prod", "basis", {"fam": "Sbq", "files": 0}, weight=2, crash_props=["C17", "C12"]),
+                            fam("basis-S1q-san", "san", "basis", {"fam": "S1q", "files": 0}, weight=3, crash_props=["C17", "C12"]),
+                            lp("S0q1-k1", "prodl1", "S0q1", "k1", weight=2), lp("Sbq-k1", "prodl1", "Sbq", "k1", weight=2), lp("T-k1", "prod", "T", "k1", weight=3, opts={"fam": "T", "cfg": "k1", "tscale": 30})]
+PLANS["C12"]["bounds"] = dict(PLANS["C12"].get("bounds", {}), thorough="all bases of S0c (487k LPs), Sbq, S1q (sanitizer build); verdict oracle inside histories of depth 3 (reduced alphabet); returned bases of S0q1, Sbq, T x K<=1")
+PLANS["C14"]["thorough"] = [hist("hist-sb3", "prod", 3, weight=1, crash_props=["C17", "C14"], opts={"depth": 3, "reduced": 0, "sandwich": 2}),
+                            hist("hist-sb4", "prod", 4, weight=3, crash_props=["C17", "C14"], opts={"depth": 4, "reduced": 0, "sandwich": 2}),
+                            fam("basisfile-S0c", "prod", "basis", {"fam": "S0c", "files": 1, "verify": 0}, weight=6, crash_props=["C17", "C14"]),
+                            fam("basisfile-Sbq", "prod", "basis", {"fam": "Sbq", "files": 1, "verify": 0}, weight=2, crash_props=["C17", "C14"]),
+                            fam("basisfile-S1q-san", "san", "basis", {"fam": "S1q", "files": 1, "verify": 0}, weight=2, crash_props=["C17", "C14"]),
+                            hist("hist-d3r-prod", "prod", 3, reduced=1, weight=2, crash_props=["C17", "C14"])]
+PLANS["C14"]["bounds"] = dict(PLANS["C14"].get("bounds", {}), thorough="every valid basis of S0c (487k LPs), Sbq, S1q (sanitizer build); solve ; op ; op ; write_basis histories")
+PLANS["C15"]["thorough"] = [fam("meta-S0q1-d2", "prodl1", "meta", {"fam": "S0q1", "depth": 2}, weight=8, crash_props=["C17", "C15"], timeout=900),
+                            fam("meta-T-d2", "prod", "meta", {"fam": "T", "depth": 2, "tscale": 30}, weight=5, crash_props=["C17", "C15"], timeout=900),
+                            fam("meta-CAT-d2", "prod", "meta", {"fam": "CAT", "depth": 2}, weight=4, crash_props=["C17", "C15"], timeout=900),
+                            fam("meta-S0q1-d1-primal", "prodl1", "meta", {"fam": "S0q1", "depth": 1, "algo": "primal"}, weight=1, crash_props=["C17", "C15"], timeout=900),
+                            fam("meta-CAT-d2-primal", "prod", "meta", {"fam": "CAT", "depth": 2, "algo": "primal"}, weight=3, crash_props=["C17", "C15"], timeout=900)]
+PLANS["C15"]["bounds"] = dict(PLANS["C15"].get("bounds", {}), thorough="all pairs of transformations (depth 2) on S0q1, T and the 24-LP catalogue; primal start on S0q1 (depth 1) and the catalogue (depth 2)")
+_dl("C15", thorough=1800)
+_dl("C16", thorough=1800)
+_dl("C18", thorough=1800)
+# C17 thorough: what the other thorough tiers run on the sanitizer build, Valgrind on a slice, twin executions
+PLANS["C17"]["thorough"] = _c17_quick_base + [hist("inv-d1r-san", "san", 1, reduced=1, family="inv", weight=3), fam("cpar-san", "san", "cpar", {}, weight=4, crash_props=["C17", "C16"]),
+                                              _H3R_SAN,
+                                              lp("S0q1-sanl1-default", "sanl1", "S0q1", "default", weight=1), lp("T-san-default", "san", "T", "default", weight=3, opts={"fam": "T", "cfg": "default", "tscale": 30}),
+                                              hist("hist-d2r-valgrind", "prod", 2, reduced=1, weight=6, wrapper=VALGRIND, timeout=600),
+                                              hist("hist-sw3r-valgrind", "prod", 3, weight=4, wrapper=VALGRIND, timeout=600, opts={"depth": 3, "reduced": 1, "sandwich": 1}),
+                                              lp("S0q1-valgrind", "prodl1", "S0q1", "k1x", weight=4, wrapper=VALGRIND, timeout=600, range=[0, 1600]),
+                                              hist("hist-d3r-prod", "prod", 3, reduced=1, weight=2), lp("Sbq-k1-prodl1", "prodl1", "Sbq", "k1", weight=3)] \
+                           + [twin(hist("hist-d3r-prod", "prod", 3, reduced=1, weight=2)), twin(lp("Sbq-k1-prodl1", "prodl1", "Sbq", "k1", weight=3))] + _det_quick + [twin(r) for r in _det_quick] \
+                           + [r for r in PLANS["C17"]["thorough"] if r["family"] == "rdr"]
+for r in PLANS["C17"]["thorough"]:
+    r["crash_props"] = sorted(set(r.get("crash_props", []) + ["C17"]))
+PLANS["C17"]["bounds"] = dict(PLANS["C17"]["bounds"], thorough="adds on the sanitizer build: invalid calls after one operation, depth-3 reduced histories, all copy interleavings, cpar, S0q1 and T; Valgrind memcheck (uninitialised values fatal) on depth-2 / solve;op;solve histories over the reduced alphabet and on 1600 LPs x entry/pricing/scaling configurations; double execution of depth-3 reduced histories and Sbq x K<=1")
+_dl("C17", thorough=3000)
